@@ -271,6 +271,7 @@ def run(ctx):
         r2.check(None not in vals, ctx.construct(tf, st),
                  'write after the task CAS reachable although it lost',
                  ctx.loc(tf, st))
+    cas_skipped_only_when_unchanged(ctx, r2)
 
     # ---- R3 transition table vs statement --------------------------------
     r3 = ctx.rule('R3', 'transition table restricted to requested targets '
@@ -640,6 +641,46 @@ def finished_workflows(ctx, r7, completed, S):
         r7.check(not (vals & completed), ctx.construct(h, c),
                  'handler reaches check_and_complete for finished '
                  'workflows', ctx.loc(h, c))
+
+
+def cas_skipped_only_when_unchanged(ctx, rule):
+    """Task.set_state reports success without the compare-and-swap only
+    when the requested state equals the current one (nothing to change)."""
+    prog = ctx.prog
+    f = prog.func('mistral.engine.tasks.Task.set_state')
+    cfg = ctx.cfg(f)
+    cas = [n for n, c in U.calls_in(cfg, 'update_task_execution_state')]
+    if not cas:
+        raise AnalysisError('Task.set_state: CAS call lost')
+    st = f.params[1]
+    for x in cfg.nodes:
+        if x.kind == 'stmt' and isinstance(x.ast, ast.Return) and \
+                x.ast.value is not None and norm(x.ast.value) == 'True':
+            # paths to this return that avoid the CAS
+            avoid = cfg.reach([s_ for s_, k in cfg.entry.succ], avoid=cas)
+            if not any(y is x for y in avoid):
+                continue
+            blocked = [n for n in cfg.nodes if U.guarded(
+                cfg, n, 'cur_state == %s' % st, True) or n in cas]
+            rule.check(cfg.must_pass(cfg.entry, blocked, exits=[x]),
+                       ctx.construct(f, extra='no CAS only when unchanged'),
+                       'set_state can return True without the '
+                       'compare-and-swap although the requested state '
+                       'differs from the current one', ctx.loc(f, x.ast))
+    cur = [a for a in own_nodes(f.node) if isinstance(a, ast.Assign) and
+           dotted(a.targets[0]) == 'cur_state']
+    rule.check(len(cur) == 1 and norm(cur[0].value) == 'self.task_ex.state',
+               ctx.construct(f, extra='cur_state read from the row'),
+               'cur_state is not the state read from the task execution',
+               ctx.loc(f))
+    for n, c in U.calls_in(cfg, 'update_task_execution_state'):
+        kw = {k.arg: norm(k.value) for k in c.keywords}
+        rule.check(kw.get('cur_state') == 'cur_state' and
+                   kw.get('state') == st and
+                   kw.get('id') == 'self.task_ex.id',
+                   ctx.construct(f, extra='CAS arguments'),
+                   'the CAS is not (id, cur_state read, requested state)',
+                   ctx.loc(f, c))
 
 
 def _cas_success_guard(cfg, node, cas_node):
